@@ -344,6 +344,9 @@ func describe(sr *StepResult) string {
 	}
 	if sr.RPC != nil {
 		s += fmt.Sprintf(" rpc=%s calls=%d", sr.RPC.Proc, len(sr.RPC.Calls))
+		if os.Getenv("VERIF_CALLS") != "" {
+			s += fmt.Sprintf(" %v", sr.RPC.Calls)
+		}
 	}
 	return s
 }
